@@ -21,7 +21,7 @@ Rel(x, a) == IF U!Le(x, U!Add(a, U!N(Window))) THEN U!ToNat(U!Sub(x, a)) ELSE Wi
 
 \* close a case: history checks
 Close(s, ln) ==
-  IF s.kind = "history" /\ Len(s.vs) > 0
+  IF s.kind \in {"history", "fresh"} /\ Len(s.vs) > 0
   THEN [s EXCEPT !.viol = s.viol \cup Bad(s, ln, HistoryFailures(s.vs), "etag vs version history")]
   ELSE s
 
